@@ -11,12 +11,14 @@ from lib import histprops as P
 LEVELS = ["RR", "SER"]
 
 
-def gen_case(rng, cid, ncommit, with_writer, mixed_levels=False):
+def gen_case(rng, cid, ncommit, with_writer, mixed_levels=False, empty_store=False):
     nkeys = rng.randint(1, 3)
     keys = sorted(rng.sample([b"a", b"b", b"c", b"d"], nkeys))
     ls = ["case %s roots=1" % cid, "keytab " + " ".join(k.hex() for k in keys)]
     v = 0
     for k in range(1, nkeys + 1):
+        if empty_store:
+            break           # a store that was EMPTY when it was opened: the concurrent commits are the first to touch the committed store
         v += 1
         ls.append("set 0 %d %d 3 s" % (k, v))
     for t in range(1, ncommit + 1):
@@ -27,7 +29,8 @@ def gen_case(rng, cid, ncommit, with_writer, mixed_levels=False):
         ws = {common} | {rng.randint(1, nkeys) for _ in range(rng.randint(0, 2))}
         for k in sorted(ws):
             v += 1
-            ls.append(rng.choice(["set %d %d %d 3 s" % (t, k, v), "set %d %d %d 3 s" % (t, k, v), "del %d %d" % (t, k)]))
+            ls.append(rng.choice(["set %d %d %d 3 s" % (t, k, v), "set %d %d %d 3 %s" % (t, k, v, rng.choice(["r2", "c1", "c", "c3"])),
+                                  "del %d %d" % (t, k)]))
     groups = ["commit %d" % t for t in range(1, ncommit + 1)]
     if with_writer:
         v += 1
@@ -133,6 +136,8 @@ def run(rep):
         cases.append(gen_case(rng, "t%d" % i, 3, with_writer=(i % 2 == 0)))
     for i in range(n2):
         cases.append(gen_staggered(rng, "g%d" % i))
+    for i in range(n2 * 2):
+        cases.append(gen_case(rng, "e%d" % i, rng.choice([2, 3, 3]), with_writer=False, empty_store=True))
     impl = H.run_sharded(fsdbh, "hist", cases)
     viol, mism, orders = 0, 0, {}
     for c, o in zip(cases, impl):
@@ -174,6 +179,14 @@ def run(rep):
         refuted_theorems=["C07_first_committer_wins_refuted_orig (pinned tree; repaired by a fix: commit)"],
         proof_ok=proof_ok)
     LS.conclude(rep, sk, 'conflict test and publication in ONE critical section of the committed store: C07_one_critical_section')
+    # the atomic commit of the theorem works on ONE committed store: it must be registered from the moment Open returns
+    # (Load puts it; commits that find none would each create and lock their own) - also for a store opened empty
+    hm = ["case hm roots=1", "keytab 6b31", "hasmain", "begin RR", "set 1 1 1 3 s", "hasmain", "commit 1", "hasmain", "reopen", "hasmain", "end"]
+    ho = C.run_lines(fsdbh, "hist", hm, timeout=120)
+    if [r for l, r in zip([x for x in hm if not x.startswith("keytab")], ho) if l == "hasmain"] != ["yes"] * 4:
+        rep.violation(dict(kind="correspondence", what="the committed version store is not registered when Open returns (the model's commit "
+                           "is atomic on ONE committed store; concurrent first commits would each create their own)", case="\n".join(hm), impl=ho))
+    rep.coverage["committed_store_registered_at_open"] = ho
     rep.assumptions = ["a critical section under a sync.RWMutex write lock is atomic w.r.t. every other section under that lock "
                        "(Go runtime; DESIGN section 3): with the repaired UpdateTx a commit is one step",
                        "schedules explored on the real code: the adversarial one (all tests before any publication) per case; "
